@@ -26,9 +26,11 @@ def random_weight(rnd, cls):
         t = ip + "." + fp
         return t if frac(t) > 0 else "0.000000001"
     if cls == "tiny":
-        return rnd.choice(["0.000000001", "0.00000001", "0.0000005", "0.000001"])
+        return rnd.choice(["0.000000001", "0.00000001", "0.0000005", "0.000001", "0.00000000025", "0.0000123", "0.0000000000000000000125",
+                           "0.000000000000000000000000000015", "0.00001", "0.000099"])
     if cls == "huge":
-        return rnd.choice(["1000000000", "999999999.999999999", "123456789", "500000000.5"])
+        return rnd.choice(["1000000000", "999999999.999999999", "123456789", "500000000.5", "150000000000000000000.0", "12300000000000000.0",
+                           "10000000000000000.0", "2500000000000000000000000000000.0"])
     if cls == "tenths":
         return rnd.choice(["0.1", "0.2", "0.3", "0.7", "0.6", "0.5", "1.1", "3.4", "33.3", "0.25", "2.5"])
     raise ValueError(cls)
